@@ -66,7 +66,7 @@ def one_edit(rng):
 
 class C03(Property):
     id = "C03"
-    lean_module = "RosuModel.Props.C03Frame"   # imports Props/C03.lean; both files are in namespace Rosu.C03
+    lean_module = "RosuModel.Props.C03All"   # imports Props/C03Frame.lean (→ Props/C03.lean) and Props/C03File.lean; all in namespace Rosu.C03
     namespace = "Rosu.C03"
     design_ref = "5.3"
     required_theorems = ["title_line_sets_title", "artist_line_sets_artist", "edit_survives_metadata", "edit_frame_metadata",
@@ -76,7 +76,8 @@ class C03(Property):
                          "encode_objects_depends_only_on", "encode_timing_depends_only_on", "encode_ok_of_same_list_inputs",
                          "decode_block_independent_state", "decode_block_independent", "edit_frame_objects", "edit_frame_objects_maps",
                          "frameEdit_metadata", "frameEdit_editor", "frameEdit_colors", "frameEdit_general", "frameEdit_difficulty",
-                         "frameEdit_background", "FrameEdit.trans"]
+                         "frameEdit_background", "FrameEdit.trans",
+                         "list_blocks_shape", "edit_frame_objects_rep", "edit_frame_objects_maps_rep", "repMap_of_frameEdit", "toyEdited_frameEdit", "toyEdited_rep"]
     partial_theorems = {
         "edit_survives_editor / _difficulty / _events / _general / _records (and the matching edit_frame_*)":
             "law-dependent: proved for every number codec satisfying CodecLaws (+ IntPrintLaw for AudioLeadIn), shown satisfiable by Lemmas/ToyCodec.lean; CodecLaws is now also a theorem "
@@ -95,7 +96,15 @@ class C03(Property):
             "whenever encoding the unedited one does; both texts are read back without I/O error; the two decoder states agree on hit objects, pending group and control points; "
             "finalisation gives the same hit objects and control points or fails identically. Excluded on purpose: mode, slider multiplier, slider tick rate, breaks (the decoder / "
             "encoder propagate them into objects and timelines). The older `def edit_frame_objects_statement` (lengths only, no representability or shape hypothesis) stays in "
-            "Props/C03.lean as a statement; its unconditional form needs the list-block shape from C04",
+            "Props/C03.lean as a statement; its unconditional form needs the list-block shape from C04 — supplied for RepMap maps by edit_frame_objects_rep",
+        "edit_frame_objects_rep / edit_frame_objects_maps_rep / repMap_of_frameEdit":
+            "edit_frame_objects with the ListBlockShape assumption DISCHARGED (Props/C03File.lean): for an unedited map satisfying RepMap (Lemmas/RepMap.lean: RtFile.RepRecords + "
+            "RtTiming.RepTimingMap + every hit object SliderRt.RepObject) the shape of the [TimingPoints] block is C04.timing_block_shape and that of the [HitObjects] block "
+            "C04.hitobjects_block_accepted (list_blocks_shape), so the frame clause holds with hypotheses: MapLaws (CodecLaws for both float types, IntPrintLaw, SliderRt.CoordLaws), RepMap m, "
+            "RepRecords m', FrameEdit m m', encode m = ok t — nothing else. repMap_of_frameEdit: the edited map satisfies RepMap again (a FrameEdit leaves everything the list-block "
+            "predicates and collect_samples read alone), so C04.encoded_file_accepted and C02.roundtrip_rep_partial apply to it too. Non-vacuity: C04.toyMap (toy codec; two timing points, "
+            "inherited lines, circle, two-segment slider, spinner, hold) and toyEdited (title, preview time, HP drain, background, colours, bookmarks edited). Still conditional: that a "
+            "DECODED map satisfies RepMap is not a theorem (false in general: F17, F18, F20)",
         "encode_*_depends_only_on / decode_block_independent(_state)":
             "unconditional (no codec law): the [HitObjects] block is a function of (hit objects, mode); the [TimingPoints] block of (control points, hit objects, mode, format version, "
             "slider multiplier, slider tick rate), failures included. For two files of the encoder's shape (version line, eight blocks of record lines in canonical order) with the same "
@@ -108,7 +117,9 @@ class C03(Property):
                   "edited record, and leaves every observation the edit did not touch as it was (metadata also field by field: ten fields, one edited, nine unchanged); lifted to the file "
                   "for the record fields (edit_survives_records). Sections with floats are proved for every lawful number codec (the model's IEEE codec is proved lawful at the bit level, C02). The frame clause for hit objects and timing points is a theorem too "
                   "(edit_frame_objects: an edit that leaves mode, slider multiplier, tick rate, breaks, format version, control points and hit objects alone yields the same re-decoded hit "
-                  "objects and control points), under the codec laws and the assumption that the unedited map's two list blocks are LF-free record lines (the open part of C04); the list "
+                  "objects and control points), under the codec laws and the assumption that the unedited map's two list blocks are LF-free record lines; that assumption is discharged for maps "
+                  "satisfying RepMap (edit_frame_objects_rep: record sections, collected control points and every hit object representable — via C04's timing_block_shape and "
+                  "hitobjects_block_accepted), and the edited map is RepMap again (repMap_of_frameEdit); the list "
                   "blocks are shown to be functions of exactly the fields named, and the decoder's object / control-point state to depend on the record blocks only through mode, default "
                   "sample bank / volume, slider multiplier and breaks. Decoder+encoder model compared with the code on decode → edit through the public fields → encode → decode (identical text and map). "
                   "The property is evaluated on the real code for single- and multi-field edits drawn from per-field generators (strings with ':', '//', ',', quotes, brackets, header- and "
